@@ -157,6 +157,28 @@ pub fn c10_step(
 		out.push(mk("embedded", "list-semantics").obs(format!("{:?} -> {:?}", lossy(before), lossy(&after.path))).exp(want));
 		ok = false;
 	}
+	// (1b) the same step through a handle built over the raw buffer (where the family has one)
+	{
+		let whole = compose(prefix, before, suffix);
+		let (ps, pe) = syntax::split_ranges(&whole).path;
+		match guard(|| raw_path_handle(&whole, ps, pe, &mut |h| apply_pathmut(h, op))) {
+			Guard::Ok(Some((raw, v))) => {
+				if raw != text || v != view {
+					out.push(
+						mk("raw-handle", "differs-from-path_mut")
+							.obs(format!("buffer {:?} view {:?}", lossy(&raw), lossy(&v)))
+							.exp(format!("buffer {:?} view {:?}", lossy(&text), lossy(&view))),
+					);
+					ok = false;
+				}
+			}
+			Guard::Ok(None) => (),
+			Guard::Panic(pm) => {
+				out.push(mk("raw-handle", "panic").feat("panic_at", panic_site(&pm)).obs(format!("panic: {pm}")).exp("no panic"));
+				ok = false;
+			}
+		}
+	}
 	// (2) the same step as the last of a sequence through ONE handle
 	if !history.is_empty() {
 		let one = guard(|| {
